@@ -289,7 +289,37 @@ type facts20 struct {
 	wlReordered    bool
 	maxMap         int
 	comments       int
+	otherKeyedUnsorted bool // a list outside the reference whitelist whose elements carry "name"/"key" in non-sorted order
+	ambiguousKeys      int  // plain mapping keys that YAML 1.1 reads as a non-string
 }
+
+// PINNED reference copy of the order-insensitive lists the property allows the formatter to reorder
+// (= coq/theories/Yaml/FmtTablesRef.v; cross-checked by the KTable case).  The value / pair-multiset
+// oracles normalise exactly these lists — NOT whatever the run-time table of the tree under test says:
+// a row added to yaml.WhitelistedListSortFields makes the formatter reorder a list whose order matters
+// (initContainers run in sequence), and must show up as a changed value.
+var refWlKinds20 = []string{"CronJob", "DaemonSet", "Deployment", "Job", "ReplicaSet", "StatefulSet", "ValidatingWebhookConfiguration"}
+var refWlApis20 = []string{"apps/v1", "apps/v1beta1", "apps/v1beta2", "batch/v1", "batch/v1beta1", "extensions/v1beta1", "v1",
+	"admissionregistration.k8s.io/v1"}
+var refWlFieldsList20 = [][2]string{{".spec.template.spec.containers", "name"}, {".webhooks.rules.operations", ""}}
+var refWlFields20 = func() map[string]string {
+	m := map[string]string{}
+	for _, p := range refWlFieldsList20 {
+		m[p[0]] = p[1]
+	}
+	return m
+}()
+
+func inList20(s string, l []string) bool {
+	for _, x := range l {
+		if x == s {
+			return true
+		}
+	}
+	return false
+}
+
+func wlOnRef20(kind, api string) bool { return inList20(kind, refWlKinds20) && inList20(api, refWlApis20) }
 
 func wlOn20(kind, api string) bool {
 	return kyaml.WhitelistedListSortKinds.Has(kind) && kyaml.WhitelistedListSortApis.Has(api)
@@ -328,6 +358,8 @@ func gatherFacts20(n *yaml.Node, path string, wl bool, f *facts20) {
 			k := n.Content[i]
 			if k.Kind != yaml.ScalarNode {
 				f.complexKey = true
+			} else if k.Style == 0 && kyaml.IsValueNonString(k.Value) {
+				f.ambiguousKeys++
 			}
 			if seen[k.Value] {
 				dup = true
@@ -386,6 +418,24 @@ func gatherFacts20(n *yaml.Node, path string, wl bool, f *facts20) {
 				}
 				if equiv && len(n.Content) > 12 {
 					f.bigEquiv = true
+				}
+			}
+		}
+		if _, ref := refWlFields20[path]; !ref && len(n.Content) >= 2 {
+			for _, sf := range []string{"name", "key"} {
+				prev, have := "", false
+				for _, e := range n.Content {
+					if e.Kind != yaml.MappingNode {
+						continue
+					}
+					k := seqKey20(e, sf)
+					if k == "" {
+						continue
+					}
+					if have && k < prev {
+						f.otherKeyedUnsorted = true
+					}
+					prev, have = k, true
 				}
 			}
 		}
@@ -505,7 +555,7 @@ func normWl20(v interface{}, path string) interface{} {
 		for i, c := range x {
 			out[i] = normWl20(c, path)
 		}
-		if _, found := kyaml.WhitelistedListSortFields[path]; found {
+		if _, found := refWlFields20[path]; found {
 			sort.SliceStable(out, func(i, j int) bool { return canonJSON20(out[i]) < canonJSON20(out[j]) })
 		}
 		return out
@@ -665,7 +715,16 @@ func laws20(c case20) (vs []verdict20, info map[string]string) {
 					continue
 				}
 				info["value"] = "checked"
+				if docDupKeys20(nodes[i]) {
+					// the typed value of a mapping with duplicate (typed) keys is "last one wins": not a function
+					// of the pair multiset; such documents are covered by the pair-multiset law below
+					info["value"] = "dup-keys-json-skipped"
+					continue
+				}
 				yv, ey := jsonValue20(yd[i])
+				if ey != nil && strings.Contains(ey.Error(), "json: unsupported value") {
+					continue // .inf / .nan have no JSON form (the input's typed value exists only because of key order)
+				}
 				if ey != nil {
 					class := "value/output-unreadable"
 					if f.alias && strings.Contains(ey.Error(), "unknown anchor") {
@@ -677,19 +736,24 @@ func laws20(c case20) (vs []verdict20, info map[string]string) {
 					continue
 				}
 				kind, api, ok := typeMeta20(nodes[i])
-				if ok && wlOn20(kind, api) && !fmtOptOut20(nodes[i]) {
+				if ok && wlOnRef20(kind, api) && !fmtOptOut20(nodes[i]) {
 					xv, yv = normWl20(xv, ""), normWl20(yv, "")
 				}
 				if c.UseSchema && ok && openapi.SchemaForResourceType(kyaml.TypeMeta{APIVersion: api, Kind: kind}) != nil {
-					continue // scalar types follow the schema by design: see schemaLaw20
-				}
-				// (a document whose own type has no schema must keep its typed value under UseSchema too)
-				if docDupKeys20(nodes[i]) {
-					// the typed value of a mapping with duplicate keys is "last one wins": not a function of
-					// the pair multiset; such documents are covered by the pair-multiset law below
-					info["value"] = "dup-keys-json-skipped"
+					// scalar VALUES follow the schema by design (see schemaLaw20); the KEYS of every mapping must
+					// still resolve to the same typed key (`on:` is the key true, `"on":` the key "on")
+					if !docDupKeys20(nodes[i]) {
+						wlr := wlOnRef20(kind, api) && !fmtOptOut20(nodes[i])
+						ka, kb := canonJSON20(keySkel20(xv, "", wlr)), canonJSON20(keySkel20(yv, "", wlr))
+						if ka != kb {
+							vs = append(vs, verdict20{"value_preserved", "keys/retyped",
+								"the typed keys of the document changed; " + firstDiff20(ka, kb)})
+						}
+						info["keyskel"] = "checked"
+					}
 					continue
 				}
+				// (a document whose own type has no schema must keep its typed value under UseSchema too)
 				if !reflect.DeepEqual(xv, yv) {
 					vs = append(vs, verdict20{"value_preserved", "value/other",
 						"typed value changed; " + firstDiff20(canonJSON20(xv), canonJSON20(yv))})
@@ -705,7 +769,7 @@ func laws20(c case20) (vs []verdict20, info map[string]string) {
 		if e1 == nil && e2 == nil && len(in) == len(out) && len(in) == len(nodes) {
 			for i := range in {
 				kind, api, ok := typeMeta20(nodes[i])
-				wl := ok && wlOn20(kind, api) && !fmtOptOut20(nodes[i])
+				wl := ok && wlOnRef20(kind, api) && !fmtOptOut20(nodes[i])
 				a, b := canonNode20(in[i].YNode(), "", wl), canonNode20(out[i].YNode(), "", wl)
 				if a != b {
 					vs = append(vs, verdict20{"value_preserved", "value/pairs-not-permuted",
@@ -713,6 +777,25 @@ func laws20(c case20) (vs []verdict20, info map[string]string) {
 				}
 			}
 			info["pairs"] = "checked"
+		}
+	}
+	// --- keys: formatting never touches a mapping key node (text, tag, quoting), with or without a schema
+	if okidx {
+		in, e1 := read20(idx, true)
+		out, e2 := read20(y, true)
+		if e1 == nil && e2 == nil && len(in) == len(out) && len(in) == len(nodes) {
+			for i := range in {
+				a, b := []string{}, []string{}
+				keyFacts20(in[i].YNode(), "", &a)
+				keyFacts20(out[i].YNode(), "", &b)
+				sort.Strings(a)
+				sort.Strings(b)
+				if ja, jb := strings.Join(a, "\n"), strings.Join(b, "\n"); ja != jb {
+					vs = append(vs, verdict20{"value_preserved", "keys/restyled",
+						"a mapping key changed its tag / quoting / text; " + firstDiff20(ja, jb)})
+				}
+			}
+			info["keys"] = "checked"
 		}
 	}
 	if c.UseSchema {
@@ -792,12 +875,100 @@ func unsorted20(n *yaml.Node, path string, wl bool) (string, bool) {
 	return "", false
 }
 
-func docDupKeys20(n *kyaml.RNode) bool {
-	f := facts20{}
-	if n.YNode() != nil {
-		gatherFacts20(n.YNode(), "", false, &f)
+// keyFacts20 lists every mapping key of a tree as "path|tag|quoted|text".
+func keyFacts20(n *yaml.Node, path string, acc *[]string) {
+	if n == nil {
+		return
 	}
-	return f.dupKeys
+	switch n.Kind {
+	case yaml.MappingNode:
+		for i := 0; i+1 < len(n.Content); i += 2 {
+			k := n.Content[i]
+			if k.Kind == yaml.ScalarNode {
+				q := k.Style&(yaml.DoubleQuotedStyle|yaml.SingleQuotedStyle) != 0
+				*acc = append(*acc, fmt.Sprintf("%s|%s|%v|%q", path, k.Tag, q, k.Value))
+			} else {
+				keyFacts20(k, path, acc)
+			}
+			keyFacts20(n.Content[i+1], path+"."+k.Value, acc)
+		}
+	case yaml.SequenceNode:
+		for _, e := range n.Content {
+			keyFacts20(e, path, acc)
+		}
+	}
+}
+
+// keySkel20: the typed value with every leaf erased (keys and shape only); reference-whitelisted lists as multisets.
+func keySkel20(v interface{}, path string, wl bool) interface{} {
+	switch x := v.(type) {
+	case map[string]interface{}:
+		out := map[string]interface{}{}
+		for k, c := range x {
+			out[k] = keySkel20(c, path+"."+k, wl)
+		}
+		return out
+	case []interface{}:
+		out := make([]interface{}, len(x))
+		for i, c := range x {
+			out[i] = keySkel20(c, path, wl)
+		}
+		if _, found := refWlFields20[path]; found && wl {
+			sort.SliceStable(out, func(i, j int) bool { return canonJSON20(out[i]) < canonJSON20(out[j]) })
+		}
+		return out
+	}
+	return nil
+}
+
+var typedKeyCache20 = map[string]string{}
+
+// typedKey20: the key as YAML 1.1 / JSON reads it (`yes`, `on`, `true` are all the key "true"; `010` is "8").
+func typedKey20(k *yaml.Node) string {
+	if k.Kind != yaml.ScalarNode || k.Style != 0 || k.Tag == "!!str" && !kyaml.IsValueNonString(k.Value) {
+		return k.Value
+	}
+	if v, ok := typedKeyCache20[k.Value]; ok {
+		return v
+	}
+	out := k.Value
+	if v, err := jsonValue20(k.Value + ": 0\n"); err == nil {
+		if m, ok := v.(map[string]interface{}); ok && len(m) == 1 {
+			for kk := range m {
+				out = kk
+			}
+		}
+	}
+	typedKeyCache20[k.Value] = out
+	return out
+}
+
+// docDupKeys20: some mapping has two keys that are the same key once typed (textual duplicates included):
+// the typed value of such a document is "last one wins" and not a function of its pair multiset.
+func docDupKeys20(n *kyaml.RNode) bool {
+	var rec func(y *yaml.Node) bool
+	rec = func(y *yaml.Node) bool {
+		if y == nil {
+			return false
+		}
+		if y.Kind == yaml.MappingNode {
+			seen := map[string]bool{}
+			for i := 0; i+1 < len(y.Content); i += 2 {
+				tk := typedKey20(y.Content[i])
+				if seen[tk] {
+					return true
+				}
+				seen[tk] = true
+			}
+		}
+		for _, c := range y.Content {
+			if rec(c) {
+				return true
+			}
+		}
+		return false
+	}
+	return rec(n.YNode())
 }
 
 // canonNode20: canonical text of a node tree up to the order of mapping pairs and of whitelisted lists.
@@ -822,7 +993,7 @@ func canonNode20(n *yaml.Node, path string, wl bool) string {
 		for _, e := range n.Content {
 			parts = append(parts, canonNode20(e, path, wl))
 		}
-		if _, found := kyaml.WhitelistedListSortFields[path]; found && wl {
+		if _, found := refWlFields20[path]; found && wl {
 			sort.Strings(parts)
 		}
 		return fmt.Sprintf("Q(%q,&%q)[%s]", n.Tag, n.Anchor, strings.Join(parts, ","))
@@ -973,7 +1144,7 @@ func lookupSites20(n *yaml.Node, v interface{}, path string, root *openapi.Resou
 					continue
 				}
 				for i := 0; i+1 < len(s.node.Content); i += 2 {
-					if cv, ok := m[s.node.Content[i].Value]; ok {
+					if cv, ok := m[typedKey20(s.node.Content[i])]; ok {
 						next = append(next, site20{s.node.Content[i+1], cv, schField20(s.sch, s.node.Content[i].Value)})
 					}
 				}
@@ -1288,9 +1459,14 @@ func tableCase20() string {
 	}
 	sizes := fmt.Sprintf("[%d; %d; %d; %d]%%N", len(kyaml.FieldOrder), len(kyaml.WhitelistedListSortKinds),
 		len(kyaml.WhitelistedListSortApis), len(kyaml.WhitelistedListSortFields))
-	return fmt.Sprintf("(KTable [%s] %s %s [%s] %s %d %d)", strings.Join(ranks, "; "),
+	refFields := []string{}
+	for _, p := range refWlFieldsList20 {
+		refFields = append(refFields, fmt.Sprintf("(%s, %s)", coqStr(p[0]), coqStr(p[1])))
+	}
+	return fmt.Sprintf("(KTable [%s] %s %s [%s] %s %d %d %s %s [%s])", strings.Join(ranks, "; "),
 		probe(kyaml.WhitelistedListSortKinds, kinds), probe(kyaml.WhitelistedListSortApis, apis),
-		strings.Join(fields, "; "), sizes, uint32(yaml.DoubleQuotedStyle), uint32(yaml.SingleQuotedStyle))
+		strings.Join(fields, "; "), sizes, uint32(yaml.DoubleQuotedStyle), uint32(yaml.SingleQuotedStyle),
+		coqStrList(refWlKinds20), coqStrList(refWlApis20), strings.Join(refFields, "; "))
 }
 
 // ------------------------------------------------------------------ driver
@@ -1323,6 +1499,8 @@ func runOne20(r *Run, c case20, toModel bool, src string) {
 	flag("dup_sort_field", f.dupSortField)
 	flag("alias", f.alias)
 	flag("complex_key", f.complexKey)
+	flag("non_whitelisted_keyed_list_out_of_order", f.otherKeyedUnsorted)
+	flag("ambiguous_plain_keys_2plus", f.ambiguousKeys >= 2)
 	flag("whitelisted_seq", f.wlSeqs > 0)
 	flag("whitelisted_seq_out_of_order", f.wlReordered)
 	flag("changed_by_filter", res.nontrivial)
@@ -1365,6 +1543,12 @@ func runOne20(r *Run, c case20, toModel bool, src string) {
 	}
 	if v, ok := info["stream"]; ok {
 		r.Count("stream_oracle", v)
+	}
+	if v, ok := info["keys"]; ok {
+		r.Count("keys_oracle", v)
+	}
+	if v, ok := info["keyskel"]; ok {
+		r.Count("key_type_oracle", v)
 	}
 	for _, k := range []string{"schema_sites_string", "schema_sites_integer"} {
 		if v, ok := info[k]; ok {
